@@ -67,6 +67,18 @@ ALLOC_RULE = (" Allocator runs: alloc-freelist builds well-shaped free lists wit
               "previous state uses (found F18), written pages decode to the new portions. alloc-probe: tables of 1..5000 buckets in 8 fill styles (all empty / tombstones / full with the "
               "page's own tag / no empty bucket / dense / sparse): hash_raw_page_id, 2n+6 results of ProbeSequence::next and allocate_bucket must equal the Lean probing model and the meta bytes.")
 
+# C16 on crash images: every recovered directory of the crash / power-loss enumeration (after recovery and one follow-up commit) is handed to the
+# Lean image monitor by the harness itself (`--image-driver`), with the state the API reported as the expected map
+def _with_driver(run):
+    r = dict(run)
+    r["args"] = list(run["args"]) + ["--image-driver", "/verif/lean/.lake/build/bin/nomt_model"]
+    return r
+CRASH_IMAGES = [_with_driver(dict(CRASH("crash", "script-elision-threshold", 1, 1, steps=12, shards_q=1), fixed_seed=1, corpus=True, shards={"quick": 1, "thorough": 1}, cases={"quick": 1, "thorough": 1})),
+                _with_driver(CRASH("crash", "general", 2, 20, steps=1, shards_q=2)), _with_driver(CRASH("power", "kv", 2, 20, steps=1, shards_q=2))]
+CRASH_IMAGES_RULE = (" Crash images: the crash / power-loss enumeration of C03 / C04 (every I/O event index of chosen operations, incl. a directed history that moves a sub-trie across the "
+                     "page-elision threshold) hands every directory that recovered to a state the API reports consistently to the same monitor (`check <dir> <expected>`), so that the image after WAL "
+                     "replay / rollback-log trimming + one more commit is decoded too (counters recovered_images_checked / _ok in the evidence).")
+
 IMG_RUN = {"cmd": "image", "mode": "image", "cases": {"quick": 24, "thorough": 400}, "shards": {"quick": 8, "thorough": 16}}
 # directed replay (corpus): history 18 of image seed 1000 — 1616 fat-valued keys, half of them under a 200-bit common prefix;
 # the commit that splits the branch node writes a separator whose last bit is lost (see KNOWN finding candidate F13 in the report)
@@ -101,8 +113,8 @@ PROPS = {
     "C16": {
         "tags": ['C16', 'C01'],
         "runs": IMG_CORPUS + [{"cmd": "image-prefix-shrink", "mode": "image", "cases": {"quick": 1, "thorough": 1}, "corpus": True},
-                              {"cmd": "image-prefix-tail", "mode": "image", "cases": {"quick": 1, "thorough": 1}, "corpus": True}, dict(IMG_RUN)],
-        "rule": IMG_RULE,
+                              {"cmd": "image-prefix-tail", "mode": "image", "cases": {"quick": 1, "thorough": 1}, "corpus": True}, dict(IMG_RUN)] + CRASH_IMAGES,
+        "rule": IMG_RULE + CRASH_IMAGES_RULE,
         "trusted_base": IMG_TB, "assumptions": IMG_ASSUME,
     },
     "C19": {
